@@ -4,7 +4,8 @@ FindInstancePeaksGroundTruth, LabelsReader with instances_key=True).
 
 Every frame carries at least one labelled instance (the labels reader needs one); a frame "without
 detections" holds a ghost animal whose centroid lies far outside the image, so that the centroid
-network shows nothing for it.  eff_scale = 1 throughout (C02's finding F61 lives at eff_scale != 1).
+network shows nothing for it.  eff_scale = 1 in the one-size cases; the "mixed" cases hold 2-3 videos of different frame sizes with
+max_height/max_width size matching (eff_scale differs between batch-mates; F61 of C02 is repaired in /repo).
 Model: coq/theories/C12/Batch.v (centroid_only_stream; CGt)."""
 from __future__ import annotations
 
@@ -23,23 +24,41 @@ def tie_margin(u, os_):
     return min(f, 1 - f)
 
 
-def gen_case(rng, idx):
-    H = rng.choice([96, 112, 128, 144])
-    W = rng.choice([96, 112, 128, 160])
+def _P12():
+    from .props import c12 as P
+    return P
+
+
+def gen_case(rng, idx, mixed=False):
+    P = _P12()
     n_frames = rng.randint(2, 5)
+    if mixed:
+        mh, mw, sizes = P.gen_mixed_sizes(rng, "centroid_only")
+        vid = [0, 1] + [rng.randrange(len(sizes)) for _ in range(n_frames - 2)]
+    else:
+        mh = mw = None
+        sizes, vid = [(rng.choice([96, 112, 128, 144]), rng.choice([96, 112, 128, 160]))], [0] * n_frames
+    H, W = sizes[0]
     c = {"kind": "centroid_only", "idx": idx, "H": H, "W": W, "os_c": rng.choice([2, 4]), "ms": rng.choice([1, 8, 16]),
          "refinement": rng.choice([None, "integral"]), "max_instances": rng.choice([None, None, 1, 2, 3]),
          "n_nodes": rng.randint(1, 3), "batch_mid": rng.randint(2, 4), "n_videos": rng.choice([1, 2, 2])}
+    if mixed:
+        c.update({"mh": mh, "mw": mw, "sizes": [list(x) for x in sizes], "vid": vid, "n_videos": len(sizes),
+                  "family": "mixed_video_sizes"})
     cells = [(i, j) for i in range(2) for j in range(2)]
     frames = []
     for f in range(n_frames):
+        H, W = sizes[vid[f]]
+        mx, my = P.content_maps(H, W, mh, mw)
         n_an = rng.choice([0, 1, 2, 3, 4])
+        if mixed and f < 2:
+            n_an = max(1, n_an)
         animals = []
         for (ci, cj) in rng.sample(cells, n_an):
             for _ in range(200):
                 cx = F(rng.randrange(64 * (cj * W // 2 + 20), 64 * ((cj + 1) * W // 2 - 20)), 64)
                 cy = F(rng.randrange(64 * (ci * H // 2 + 20), 64 * ((ci + 1) * H // 2 - 20)), 64)
-                if tie_margin(cx, c["os_c"]) >= F(1, 8) and tie_margin(cy, c["os_c"]) >= F(1, 8):
+                if tie_margin(mx[0] * cx + mx[1], c["os_c"]) >= F(1, 8) and tie_margin(my[0] * cy + my[1], c["os_c"]) >= F(1, 8):
                     break
             kps = []
             for k in range(c["n_nodes"]):
@@ -55,6 +74,7 @@ def gen_case(rng, idx):
             animals.append({"kps": [(gx + k, gy + k) for k in range(c["n_nodes"])], "cent": GHOST, "ghost": True})
         frames.append(animals)
     if all(all(a.get("ghost") for a in fr) for fr in frames):
+        H, W = sizes[vid[0]]
         frames[0].insert(0, {"kps": [(F(W, 2) + F(1, 8) + k, F(H, 2) + F(3, 8)) for k in range(c["n_nodes"])],
                              "cent": (F(W, 2) + F(1, 8), F(H, 2) + F(3, 8))})
     c["frames"] = frames
@@ -83,7 +103,8 @@ def case_from_json(j):
 def build_scene(c):
     sc = S.Scene(c["n_nodes"])
     for f, animals in enumerate(c["frames"]):
-        sc.add(f, c["H"], c["W"], animals)
+        h, w = _P12().fsize(c, f)
+        sc.add(f, h, w, animals)
     return sc
 
 
@@ -93,8 +114,8 @@ def run_once(c, mods, sc, order, batch, max_instances):
      "cents": [(x, y, value)] (non-NaN rows, in row order), "crow": full padded centroid row (ids filled later),
      "peaks": (max_inst, nodes, 2) array}."""
     import numpy as np
-    video, labels, where = S.make_sources(sc, order, c["n_videos"])
-    cfg = dict(os_c=c["os_c"], scale_c=1.0, ms_c=c["ms"], max_h=None, max_w=None, batch=batch,
+    video, labels, where = S.make_sources(sc, order, c["n_videos"], [c["vid"][f] for f in order] if "sizes" in c else None)
+    cfg = dict(os_c=c["os_c"], scale_c=1.0, ms_c=c["ms"], max_h=c.get("mh"), max_w=c.get("mw"), batch=batch,
                refinement=c["refinement"], max_instances=max_instances)
     pred, stub = S.build_topdown_centroid_only_predictor(mods, sc, cfg)
     raw, flags = S.run_predictor_raw(pred, "LabelsReader", video, labels)
@@ -113,7 +134,14 @@ def run_once(c, mods, sc, order, batch, max_instances):
                                  for j in range(len(cents))],
                          "peaks": peaks[k]})
         k0 += b
-    return {"records": recs, "where": dict(zip(order, where)), "n_raw": len(raw), "batch_sizes": [len(ex["frame_idx"]) for ex in raw]}
+    entries = []
+    for ex in raw:
+        osz = np.asarray(ex["orig_size"], dtype=np.float64).reshape(-1, 2)
+        entries.append([(int(f), int(v), float(e), int(hw[0]), int(hw[1]))
+                        for f, v, e, hw in zip(np.asarray(ex["frame_idx"]).ravel(), np.asarray(ex["video_idx"]).ravel(),
+                                               np.asarray(ex["eff_scale"]).ravel(), osz)])
+    return {"records": recs, "where": dict(zip(order, where)), "n_raw": len(raw), "batch_sizes": [len(ex["frame_idx"]) for ex in raw],
+            "entries": entries}
 
 
 def somes(row):
@@ -240,6 +268,8 @@ def run_case(c, mods):
 def evaluate(run, cases, mods, preamble):
     """impl runs + model + oracle + correspondence; returns (disagreements, stats)."""
     all_runs, terms, index = [], [], []
+    sterms, sindex = [], []
+    P = _P12()
     for ci, c in enumerate(cases):
         try:
             runs, err = run_case(c, mods), None
@@ -261,10 +291,16 @@ def evaluate(run, cases, mods, preamble):
         for name, order, batch in (("single", ids, 1), ("batch", ids, n), ("perm", c["perm"], n), ("mid", ids, c["batch_mid"])):
             terms.append(term(c, runs[name], order, batch, c.get("max_instances"), M, ref))
             index.append((ci, name))
+            sterms.append(P.eff_term(c, runs[name], order, batch))
+            sindex.append((ci, name))
     model = core.coq_eval_sharded(preamble, terms, "run", "rresult", shard=60, jobs=12) if terms else []
     by_case = {}
     for ix, m in zip(index, model):
         by_case.setdefault(ix[0], []).append((ix[1], m))
+    smodel = core.coq_eval_sharded(P.PREAMBLE_S, sterms, "srun", "rsres", shard=80, jobs=12) if sterms else []
+    s_by_case = {}
+    for ix, m in zip(sindex, smodel):
+        s_by_case.setdefault(ix[0], []).append((ix[1], m))
     disagreements, ties = 0, 0
     for ci, c in enumerate(cases):
         runs, err = all_runs[ci]
@@ -283,6 +319,8 @@ def evaluate(run, cases, mods, preamble):
                 # the model's centroid row is padded like the implementation's; compare as is
                 if got != [list(x) for x in m]:
                     diffs.append(f"run '{name}': impl {got} model {m}")
+        for name, m in s_by_case.get(ci, []):
+            diffs += P.cmp_entries(c, name, m, runs[name]["entries"])[:1]
         if diffs:
             disagreements += 1
             if disagreements <= 4:
